@@ -89,6 +89,12 @@ func OnNEP17Payment(from, amount, data)
   cover [C19] amount == 1 && callingScriptHash == gasHash()
   // a deposit is reported only for GAS, 0 < amount <= 9000 GAS
   ensures [C19] notifs == old(notifs) || (0 < amount && amount <= 900000000000 && callingScriptHash == gasHash())
+  // every accepted payment is reported, with the amount received, except the Inner Ring candidate fee the contract pays to
+  // itself (recognised by the marker 0x570b as data, not by its shape)
+  ensures [C19] asbytes(data) == "\x57\x0b" ==> notifs == old(notifs)
+  ensures [C19] asbytes(data) == "\x57\x0b" || len(asbytes(data)) == 20 || len(asbytes(data)) == 0
+  ensures [C19] asbytes(data) != "\x57\x0b" && len(asbytes(data)) == 20 ==> notifs == old(notifs) ++ [Deposit(from, amount, asbytes(data), txhash())]
+  ensures [C19] len(asbytes(data)) == 0 ==> notifs == old(notifs) ++ [Deposit(from, amount, from, txhash())]
   ensures [C19] store == old(store) && xcalls == old(xcalls)
 
 pure akeys(s Store) L_NB = deser_L_NB(s.get("alphabet"))
